@@ -405,6 +405,12 @@ def cases(rng, tier):
         if j == 0:
             c["seed_v"] = 0
         yield c
+    for j in range(4 if tier == "quick" else 40):   # configured (incl. very dilute) solutions, frozen completely
+        c = c01._dilute(rng, tier, j if j < 4 else None)
+        while _pre_stable(c) > 0.98:
+            c["dt"] = c["dt"] / 2
+        yield c
+    yield c01._long_hold(rng, tier)                  # long hold after complete solidification, then a ramp
     for _ in range(3 if tier == "quick" else 30):   # nucleation in the final step of the run
         yield c01._last_step(rng, tier)
     for _ in range(4 if tier == "quick" else 40):   # recorded subsets given as unsorted int lists
